@@ -326,7 +326,7 @@ func runC01(c *Ctx) {
 		maxRules, maxLinks = 3, 3
 	}
 	c.Exhaustive = true
-	c.Rule = fmt.Sprintf("16 model families (ACL, superuser, RBAC, RBAC over names with coinciding concatenations, resource roles, domains, domains with a role-name matching function, deny-override, allow-and-deny, priority, ABAC attributes, eval() rules, keyMatch/regexMatch, in-operator, EnforceContext with two policy types, negation) x all policies of <= %d rules (ordered sequences for priority) x all grouping sets of <= %d links over the family's universe x all requests of its universe (bounded-exhaustive), plus seeded random models/matchers/graphs; reference = Lean specEnforce (no govaluate, effector or role manager); non-trivial = a case with both an allowed and a denied request; distinct = (family, policy, links)", maxRules, maxLinks)
+	c.Rule = fmt.Sprintf("16 model families (ACL, superuser, RBAC, RBAC over names with coinciding concatenations, resource roles, domains, domains with a role-name matching function, deny-override, allow-and-deny, priority, ABAC attributes, eval() rules, keyMatch/regexMatch, in-operator, EnforceContext with two policy types, negation; plus a policy of 40 eval() rules) x all policies of <= %d rules (ordered sequences for priority) x all grouping sets of <= %d links over the family's universe x all requests of its universe (bounded-exhaustive), plus seeded random models/matchers/graphs; reference = Lean specEnforce (no govaluate, effector or role manager); non-trivial = a case with both an allowed and a denied request; distinct = (family, policy, links)", maxRules, maxLinks)
 	for _, f := range c01Families() {
 		// policies: per ptype subsets (ordered sequences for the priority effect)
 		var polChoices []map[string][][]string
@@ -375,5 +375,34 @@ func runC01(c *Ctx) {
 			}
 		}
 	}
+	c01ManyEvalRules(c)
 	c01Random(c)
+}
+
+// c01ManyEvalRules: a policy of 40 rules that each carry an eval() sub-matcher, one object per rule: the request
+// for the i-th object is decided by the i-th rule, however many eval() calls came before it in the same request
+// (eval() may nest, it is not rationed per request)
+func c01ManyEvalRules(c *Ctx) {
+	ms := NewMSpec().AddR("r", "sub", "obj", "act").AddP("p", "sub_rule", "obj", "act").AddE("e", effAllow).
+		AddM("m", "r", "p", And(Eval(PTok(0)), Eq(RTok(1), PTok(1)), Eq(RTok(2), PTok(2))))
+	tab := map[string]*Ex{}
+	var rules [][]string
+	for i := 0; i < 40; i++ {
+		ev := Bin("gt", Attr(0, "Age"), LitN(i))
+		t := ev.Text("r", "p", ms.R["r"], ms.P["p"])
+		tab[t] = ev
+		rules = append(rules, []string{t, fmt.Sprintf("data%d", i), "read"})
+	}
+	s := StartCase(c, ms, CaseOpts{EvalTab: tab})
+	if s == nil {
+		return
+	}
+	s.Do(c, EOp{Kind: "adds", Sec: "p", PType: "p", Ex: true, Rules: rules})
+	for _, age := range []int{100, 20} {
+		for i := 0; i < 40; i++ {
+			s.Do(c, EOp{Kind: "enfx", Req: []V{{Kind: "o", O: map[string]Atom{"Age": {N: age, Num: true}}}, VS(fmt.Sprintf("data%d", i)), VS("read")}})
+			c.Evals++
+		}
+	}
+	c.Nontrivial("many-eval-rules")
 }
